@@ -40,6 +40,7 @@ type tkey struct {
 	feed ref.Val // the data handed to the assembler at this level
 	req  bool
 	typ  string // the value's type name
+	nul  bool   // the position also holds null
 }
 
 func deepSize(v ref.Val) int {
@@ -120,7 +121,7 @@ func keysOf(s *rs.Schema, t *rs.Type, repr bool) ([]tkey, bool) {
 			if repr && f.Rename != "" {
 				name = f.Rename
 			}
-			out = append(out, tkey{name, f.Name, v, fd, !f.Optional, f.Type})
+			out = append(out, tkey{name, f.Name, v, fd, !f.Optional, f.Type, f.Nullable})
 		}
 		return out, true
 	case rs.TMap:
@@ -137,7 +138,7 @@ func keysOf(s *rs.Schema, t *rs.Type, repr bool) ([]tkey, bool) {
 				}
 			}
 		}
-		return []tkey{{names[0], ks[0], v, fd, false, t.ValType}, {names[1], ks[1], v, fd, false, t.ValType}}, true
+		return []tkey{{names[0], ks[0], v, fd, false, t.ValType, t.ValNullable}, {names[1], ks[1], v, fd, false, t.ValType, t.ValNullable}}, true
 	}
 	return nil, false
 }
@@ -342,6 +343,46 @@ func runTyped(eng typed.Engine, s *rs.Schema, t *rs.Type, repr bool, keys []tkey
 				return []core.Finding{core.F(fmt.Sprintf("%s/%s(%s)", site, cause, after), "%s: model %s, built %s", where(i), want, got)}, st, true
 			}
 			st.built = true
+		case strings.HasPrefix(c, "Bad:"):
+			// the key of a field not yet given, then a value of a kind the position cannot hold: that
+			// call must return an error (nothing is promised about the assembler afterwards: the path ends)
+			_, rest, _ := strings.Cut(c, ":")
+			route, kname, _ := strings.Cut(rest, ":")
+			var k tkey
+			for _, x := range keys {
+				if x.name == kname {
+					k = x
+				}
+			}
+			bad, what := badValue(s, k)
+			var kerr, verr error
+			pan := core.Guard(func() {
+				var va datamodel.NodeAssembler
+				switch route {
+				case "Entry":
+					va, kerr = ma.AssembleEntry(k.name)
+				case "KeyString":
+					if kerr = ma.AssembleKey().AssignString(k.name); kerr == nil {
+						va = ma.AssembleValue()
+					}
+				case "KeyNode":
+					if kerr = ma.AssembleKey().AssignNode(ref.Node(ref.Str(k.name))); kerr == nil {
+						va = ma.AssembleValue()
+					}
+				}
+				if kerr == nil {
+					verr = ref.Assign(va, bad)
+				}
+			})
+			switch {
+			case pan != "":
+				return []core.Finding{core.F(fmt.Sprintf("%s/bad-kind-panic(%s|%s)", site, what, after), "%s: %s", where(i), pan)}, st, true
+			case kerr != nil:
+				return []core.Finding{core.F(fmt.Sprintf("%s/legal-call-error(%s)", site, after), "%s: the key was refused: %v", where(i), kerr)}, st, true
+			case verr == nil:
+				return []core.Finding{core.F(fmt.Sprintf("%s/bad-kind-accepted(%s|%s)", site, what, route), "%s: %s assigned to a position of type %s was accepted", where(i), bad, k.typ)}, st, true
+			}
+			return nil, st, true
 		default:
 			route, kname, _ := strings.Cut(c, ":")
 			kname, vroute, _ := strings.Cut(kname, "/")
@@ -436,6 +477,27 @@ func runTyped(eng typed.Engine, s *rs.Schema, t *rs.Type, repr bool, keys []tkey
 	return nil, st, false
 }
 
+// badValue: a value the position of key k cannot hold (null where null is not allowed, else a scalar
+// of another kind); ok=false for positions that hold anything.
+func badValue(s *rs.Schema, k tkey) (ref.Val, string) {
+	if !k.nul {
+		return ref.Null(), "null-into-non-nullable"
+	}
+	if k.feed.K == ref.KBool {
+		return ref.Int(7), "int-into-bool"
+	}
+	return ref.Bool(true), "bool-into-" + k.feed.K.String()
+}
+
+func holdsAnything(s *rs.Schema, k tkey) bool {
+	t := s.T(k.typ)
+	if t.Kind == rs.TAny {
+		return true
+	}
+	// a kinded union holds several kinds: left out (which kinds it refuses is C09's business)
+	return t.Kind == rs.TUnion && t.URepr == "kinded"
+}
+
 // canFinish: every required key has been supplied (Finish is then a legal call that must succeed).
 func canFinish(st tstate, keys []tkey) bool {
 	for _, k := range keys {
@@ -455,7 +517,7 @@ func canFinish(st tstate, keys []tkey) bool {
 	return true
 }
 
-func enabledTyped(st tstate, keys []tkey) []string {
+func enabledTyped(schemaOf *rs.Schema, st tstate, keys []tkey) []string {
 	if st.built {
 		return nil
 	}
@@ -472,6 +534,15 @@ func enabledTyped(st tstate, keys []tkey) []string {
 		out = append(out, "Entry:"+k.name+"/node")
 		if k.typ != "Any" {
 			out = append(out, "Entry:"+k.name+"/own", "KeyString:"+k.name+"/own")
+		}
+		given := false
+		for _, d := range st.done {
+			if d == k.own {
+				given = true
+			}
+		}
+		if !given && !holdsAnything(schemaOf, k) {
+			out = append(out, "Bad:Entry:"+k.name, "Bad:KeyString:"+k.name, "Bad:KeyNode:"+k.name)
 		}
 	}
 	return append(out, "Finish")
@@ -502,7 +573,7 @@ func exploreTyped(r *core.Run, eng typed.Engine, s *rs.Schema, t *rs.Type, repr 
 				continue
 			}
 			states++
-			for _, c := range enabledTyped(st, keys) {
+			for _, c := range enabledTyped(s, st, keys) {
 				calls := append(append([]string(nil), cur...), c)
 				fs, st2, ended := runTyped(eng, s, t, repr, keys, calls, parent)
 				trans++
@@ -527,7 +598,7 @@ func exploreTyped(r *core.Run, eng typed.Engine, s *rs.Schema, t *rs.Type, repr 
 				} else if !st2.finished && !st2.built {
 					// merged away: every repeated key is still injected once from this very path (what the
 					// builder remembers about its keys may depend on the route they came by), then built
-					for _, c2 := range enabledTyped(st2, keys) {
+					for _, c2 := range enabledTyped(s, st2, keys) {
 						_, kn, _ := strings.Cut(c2, ":")
 						kn, _, _ = strings.Cut(kn, "/")
 						isDup := false
